@@ -640,6 +640,7 @@ class PCBO(PUBO):
         # use self.__class__ here because PCSO uses this code as well.
         d = super(self.__class__, self).__round__(ndigits)
         d._constraints = self.constraints
+        d._ancilla = self.num_ancillas
         return d
 
     # override
@@ -666,6 +667,7 @@ class PCBO(PUBO):
             k: [P.subs(*args, **kwargs) for P in v]
             for k, v in self._constraints.items()
         }
+        d._ancilla = self.num_ancillas
         return d
 
     def add_constraint_eq_zero(self,
